@@ -23,7 +23,7 @@ AUDIT_IMPORTS = ["Props.C05"]
 NS = "Pysersic.Props.C05."
 OBLIGATIONS = [NS + t for t in [
     "joint_is_sum", "joint_in_user_units", "likelihood_through_exposed", "exposed_names", "rms_is_sigma", "latent_sites",
-    "one_likelihood_site", "model_site", "stripSuffix_empty",
+    "one_likelihood_site", "model_site", "stripSuffix_empty", "multi_key_injective", "no_underscore_in_repr",
 ]] + ["Pysersic.Props.C11.prior_reparam_constant", "Pysersic.Props.C11.reparam_constant_jacobian"]
 MIRRORED_FILES = ["pysersic/pysersic.py", "pysersic/priors.py", "pysersic/loss.py", "pysersic/rendering.py"]
 ASSUMPTIONS = [
